@@ -732,6 +732,7 @@ func c12(p *core.Program, r *core.Report) {
 		}
 	}
 	normalisationOriginRule(p, r, "normalisation-origin-in-overlap")
+	projectionAxisRule(p, r, "projection-axis-dominant")
 	r.Assume("orientation signs are exact (C10); IsPointWithinLineBounds/DoLinesOverlap/Equal compute closed-interval membership, envelope overlap and XY equality (read by hand: four comparisons each); the accuracy of the computed crossing point and the non-robust strategy are not decided")
 }
 
@@ -1147,4 +1148,118 @@ func selectsParam(fn *ssa.Function) bool {
 		}
 	}
 	return n > 0
+}
+
+// projectionAxisRule (C12): a parameter along a segment computed as (p[k]-p1[k]) / (p2[k]-p1[k]) divides by the
+// segment's extent along ordinate k. For an axis-parallel segment one extent is exactly zero, so the quotient is
+// only meaningful where the path to the division has established that the divisor's magnitude is the larger of the
+// two extents (then it is non-zero for every segment of non-zero length). The rule looks at every float division in
+// the package whose divisor is a difference of the same ordinate of two coordinates and requires that its block is
+// reached only through an edge on which a comparison of two magnitudes (math.Abs(e) or e*e) makes the divisor's the
+// larger. It decides this necessary condition, not the value of the quotient.
+func projectionAxisRule(p *core.Program, r *core.Report, rule string) {
+	r.Rule(rule, "every division by an ordinate extent p2[k]-p1[k] in xy/lineintersector lies behind a comparison of the two extents' magnitudes on whose taken edge the divisor's magnitude is the larger: dividing by the smaller extent is 0/0 for an axis-parallel segment", 2)
+	isFloat := func(t types.Type) bool {
+		b, ok := t.Underlying().(*types.Basic)
+		return ok && b.Info()&types.IsFloat != 0
+	}
+	ordinate := func(v ssa.Value) (ssa.Value, int64, bool) {
+		ld, ok := eng.StripConv(v).(*ssa.UnOp)
+		if !ok || ld.Op != token.MUL {
+			return nil, 0, false
+		}
+		ia, ok := ld.X.(*ssa.IndexAddr)
+		if !ok {
+			return nil, 0, false
+		}
+		k, isK := eng.ConstInt(ia.Index)
+		return ia.X, k, isK
+	}
+	extent := func(v ssa.Value) bool {
+		bo, ok := eng.StripConv(v).(*ssa.BinOp)
+		if !ok || bo.Op != token.SUB || !isFloat(bo.Type()) {
+			return false
+		}
+		a, ka, okA := ordinate(bo.X)
+		b, kb, okB := ordinate(bo.Y)
+		return okA && okB && ka == kb && a != b
+	}
+	// two values are the same extent when they are one SSA value or subtract the same ordinates of the same coordinates
+	// (go/ssa has no common-subexpression elimination: `p2[0]-p1[0]` written twice is two values)
+	sameExtent := func(a, b ssa.Value) bool {
+		a, b = eng.StripConv(a), eng.StripConv(b)
+		if a == b {
+			return true
+		}
+		x, okX := a.(*ssa.BinOp)
+		y, okY := b.(*ssa.BinOp)
+		if !okX || !okY || x.Op != token.SUB || y.Op != token.SUB {
+			return false
+		}
+		xa, ka, ok1 := ordinate(x.X)
+		xb, kb, ok2 := ordinate(x.Y)
+		ya, la, ok3 := ordinate(y.X)
+		yb, lb, ok4 := ordinate(y.Y)
+		return ok1 && ok2 && ok3 && ok4 && xa == ya && xb == yb && ka == la && kb == lb
+	}
+	// magnitude(v) = e when v is math.Abs(e) or e*e
+	magnitude := func(v ssa.Value) (ssa.Value, bool) {
+		switch x := eng.StripConv(v).(type) {
+		case *ssa.Call:
+			if eng.IsCallTo(x, "math", "Abs") && len(x.Call.Args) == 1 {
+				return x.Call.Args[0], true
+			}
+		case *ssa.BinOp:
+			if x.Op == token.MUL && sameExtent(x.X, x.Y) {
+				return x.X, true
+			}
+		}
+		return nil, false
+	}
+	n := 0
+	for _, fn := range p.SrcFuncs(true) {
+		if core.FnPkgPath(fn) != mod+"/"+c12Lines || fn.Blocks == nil {
+			continue
+		}
+		for _, b := range fn.Blocks {
+			for _, in := range b.Instrs {
+				q, ok := in.(*ssa.BinOp)
+				if !ok || q.Op != token.QUO || !isFloat(q.Type()) || !extent(q.Y) {
+					continue
+				}
+				n++
+				good := eng.EdgeSet{}
+				for _, cb := range fn.Blocks {
+					for i := range cb.Succs {
+						c, ok := eng.EdgeCmp(cb, i)
+						if !ok {
+							continue
+						}
+						mx, okX := magnitude(c.X)
+						my, okY := magnitude(c.Y)
+						if !okX || !okY {
+							continue
+						}
+						var larger ssa.Value
+						switch c.Op {
+						case token.GTR, token.GEQ:
+							larger = mx
+						case token.LSS, token.LEQ:
+							larger = my
+						}
+						if larger != nil && sameExtent(larger, q.Y) {
+							good[[2]int{cb.Index, i}] = true
+						}
+					}
+				}
+				reach := eng.Reachable(fn.Blocks[0], good)
+				r.Check(!reach[b], rule, short(fn)+"/"+fmt.Sprintf("divisor#%d", n), p.Pos(q.Pos()), true,
+					"the division is reached only where the divisor's magnitude was compared as the larger extent",
+					"the quotient is taken by an ordinate extent without a comparison of magnitudes that makes it the larger one on this path: for an axis-parallel segment the divisor is 0 and the parameter NaN, so every range test on it fails open")
+			}
+		}
+	}
+	if n < 2 {
+		r.Check(false, rule, "instances", "", true, "", fmt.Sprintf("only %d divisions by an ordinate extent found in %s (2 confirmed by hand in rParameter): the rule would pass vacuously", n, c12Lines))
+	}
 }
